@@ -18,6 +18,7 @@ import (
 // literals of their own are expanded; anything else is left as it is (and stays undecided where a
 // rule needs to look inside).
 func Normalize(p *core.Program) {
+	curProg = p
 	for _, fi := range p.Funcs {
 		if fi.Decl.Body == nil {
 			continue
